@@ -212,6 +212,12 @@ SOLVE_CASES = [
     # a one-block partition declared BEFORE a several-block one (and after it)
     dict(L=[1.0], step="gd", second="new_point", two=2),
     dict(L=[1.0, 2.0], step="gd", second="none", two=1),
+    # a purely geometric model: partitions and points, no function at all
+    dict(L=[1.0, 2.0], step="block", second="new_point", nofunc=True),
+    dict(L=[1.0, 2.0, 4.0], step="block", second="none", nofunc=True),
+    # the same combination built twice (two objects, one decomposition), both decomposed
+    dict(L=[1.0, 2.0], step="block", second="new_combo", copies=True),
+    dict(L=[1.0, 2.0, 4.0], step="gd", second="none", copies=True),
 ]
 
 
@@ -249,19 +255,31 @@ def judge_solve(case):
             q.get_block = make_logged(idx)
     else:
         probs.append(("solve:partitions-identified", "two calls of declare_block_partition returned the same partition object"))
-    f = p.declare_function(BlockSmoothConvexFunction, partition=part, L=case["L"])
-    xs = f.stationary_point()
-    x0 = p.set_initial_point()
-    g0 = f.gradient(x0)
+    if case.get("nofunc"):
+        f = None
+        xs, x0, g0 = Point(), Point(), Point()
+        p.add_constraint(g0 ** 2 <= 1)
+        p.add_constraint(xs ** 2 <= 1)
+    else:
+        f = p.declare_function(BlockSmoothConvexFunction, partition=part, L=case["L"])
+        xs = f.stationary_point()
+        x0 = p.set_initial_point()
+        g0 = f.gradient(x0)
     if case["step"] == "gd":
         x1 = x0 - (1.0 / sum(case["L"])) * g0          # the user never decomposes anything
     else:
         x1 = x0 - (1.0 / case["L"][0]) * part.get_block(g0, 0)
+    if case.get("copies"):
+        part.get_block(x0 - g0, 0)
+        part.get_block(x0 - g0, d - 1)          # another object with the same decomposition
     if case.get("names") == "same":
         for pt_ in (xs, x0, x1):
             pt_.set_name("x")
     p.set_initial_condition((x0 - xs) ** 2 <= 1)
-    p.set_performance_metric(f(x1) - f(xs))
+    if f is None:
+        p.set_performance_metric(part.get_block(x1, 0) ** 2 + part.get_block(x0, d - 1) ** 2)
+    else:
+        p.set_performance_metric(f(x1) - f(xs))
     hand = None
     if case.get("hand"):
         hand = (x0 * xs == 0)
@@ -303,7 +321,7 @@ def judge_solve(case):
                 continue
             known.add(id(cl[1]))
         # what was sent for the partition = sent scalar constraints that are neither problem / function / class constraints
-        other = {id(c) for c in p.list_of_constraints} | {id(c) for c in f.list_of_constraints} | {id(c) for c in f.list_of_class_constraints}
+        other = {id(c) for c in p.list_of_constraints} | ({id(c) for c in f.list_of_constraints} | {id(c) for c in f.list_of_class_constraints} if f is not None else set())
         sent = [cl[1] for cl in calls if cl[0] == "scalar" and id(cl[1]) not in other and cl[1] is not hand]
         sent = sent[len(p.list_of_performance_metrics):]     # the metric constraints come first and are created inside solve
         got = set()
